@@ -171,16 +171,20 @@ def runOps (expired : Bool) (fuel : Nat) : List Op → BSt → List OpRes × BSt
     let (rs, b2) := runOps expired fuel os b1
     (r :: rs, b2)
 
-/-- batch.go `(*Batch).close`: what Close returns, the reader state it leaves, and whether the conn is kept -/
+/-- batch.go `(*Batch).close`: what Close returns, the reader state it leaves, and whether the conn is kept.
+Since /repo 7936b6a a failed `msgs.discard()` decides: Close returns it (through dontExpectEOF) and the conn is closed -/
 def batchClose (b : BSt) : Option BErr × RS × Bool :=
-  let rs' := if b.hasMsgs && !b.empty then (discardN b.rs.sz b.rs).2 else b.rs     -- batch.msgs.discard(), result ignored
-  let err := match b.err with | some .eof => none | e => e
+  let d : Except Err Unit × RS := if b.hasMsgs && !b.empty then discardN b.rs.sz b.rs else (.ok (), b.rs)   -- batch.msgs.discard()
+  let err0 := match b.err with | some .eof => none | e => e
+  let err := match d.1 with
+    | .error e => some (ofErr e)
+    | .ok _ => err0
   let kept := match err with
     | none => true
     | some (.kafka _) => true
     | some .shortBuffer => true
     | _ => false
-  (err, rs', kept)
+  (err, d.2, kept)
 
 /-- conn.go ReadBatchWith from the fetch response header on (`s.sz` = size announced by the frame − 4) -/
 def openBatch (expired : Bool) (v : Nat) (offset : Int) (s : RS) : BSt :=
